@@ -26,9 +26,23 @@ macro_rules! dispatch_key_event {
     ($fn:ident, $event_name:ident, $(&$item:ident), +) => {
         let handles = $fn.$event_name.clone();
         Handle::current().spawn(async move {
-            let handlers = handles.read().unwrap();
-            for (_, handle) in handlers.iter() {
-                (handle)($(&$item),+);
+            // the handlers are called without the lock, a handler may remove or register a
+            // channel itself; one that has been removed meanwhile is not called any more
+            let handlers = handles
+                .read()
+                .unwrap()
+                .iter()
+                .map(|(key, handle)| (key.clone(), handle.clone()))
+                .collect::<Vec<_>>();
+            for (key, handle) in handlers.iter() {
+                let is_registered = handles
+                    .read()
+                    .unwrap()
+                    .get(key)
+                    .is_some_and(|h| Arc::ptr_eq(h, handle));
+                if is_registered {
+                    (handle)($(&$item),+);
+                }
             }
         });
     };
